@@ -70,6 +70,23 @@ static void judge(vf::Ctx& ctx, const Problem& P, const Solver& es, long restart
         if (P.tag.empty()) ctx.violation(std::string(P.vname) + "/" + sub, j);
         else ctx.violation(P.tag + "/" + (std::string(sub) == "non-finite" ? "non-finite-result" : "inaccurate-pairs"), j);
     };
+    // the other overload: eigenvectors(nvec) is the leading min(nvec, returned) columns of eigenvectors(), in the user's coordinates as well
+    for (long nv : {1L, k / 2, k, k + 3})
+    {
+        if (nv < 0) continue;
+        auto part = es.eigenvectors((Eigen::Index) nv);
+        const long want = std::min(nv, k);
+        ctx.count("eigenvectors(nvec)_calls");
+        bool same = part.cols() == want && (want == 0 || part.rows() == evecs.rows());   // (an empty result need not have n rows)
+        // (to rounding level, not bit for bit: a one-column product V*y goes through another Eigen kernel than a several-column one)
+        for (long j = 0; same && j < want; j++)
+        {
+            LD dn = 0, cn = 0;
+            for (long i = 0; i < (long) evecs.rows(); i++) { dn += std::norm((CLD) part(i, j) - (CLD) evecs(i, j)); cn += std::norm((CLD) evecs(i, j)); }
+            if (!(std::sqrt(dn) <= 100 * std::max<long>(P.n, 10) * u * std::sqrt(cn))) same = false;
+        }
+        if (!same) { bad("eigenvectors(nvec)-not-the-leading-columns-of-eigenvectors()", (LD) nv, (LD) want, -1); break; }
+    }
     ctx.count(std::string("outcome/") + info_name(es.info()));
     if (k == 0) return;
     ctx.count("pairs_judged", k);
